@@ -78,6 +78,16 @@ func c10Trace(g *gen.FG, side string, r *fw.Rand) *c10Side {
 			s.facts[p.Tracer] = append(s.facts[p.Tracer], m)
 			p.Extra = append(p.Extra, &gen.Spec{Tag: tag, Value: m})
 		}
+		// The copy spells the name differently (no slashes round the surname,
+		// other spacing) and says where that spelling comes from in lines of its
+		// own below the NAME: a second NAME line of the merged individual, which
+		// has to keep what hangs below it.
+		if side == "R" && r.Chance(1, 4) && !p.NoName && p.Given != "" && p.Surname != "" {
+			p.NameText = []string{p.Given + " " + p.Surname, p.Given + "  /" + p.Surname + "/", p.Given + " /" + p.Surname + "/ "}[r.Intn(2)]
+			m := fmt.Sprintf("fact-%s-name", p.Tracer)
+			s.facts[p.Tracer] = append(s.facts[p.Tracer], m)
+			p.NameSub = append(append([]*gen.Spec{}, p.NameSub...), &gen.Spec{Tag: "TYPE", Value: "aka"}, &gen.Spec{Tag: "NOTE", Value: m})
+		}
 		if side == "R" && r.Chance(1, 5) && (p.Sex == "M" || p.Sex == "F") {
 			p.Sex = map[string]string{"M": "F", "F": "M"}[p.Sex] // the copy was corrected (or mistyped)
 		}
@@ -518,6 +528,39 @@ func c10Run(c *fw.Ctx, i int) {
 	if err1 != nil || err2 != nil {
 		c.HarnessError(fmt.Sprintf("C10 inputs do not decode: %v %v", err1, err2))
 		return
+	}
+	// Every third pair has an input that was edited through the API before
+	// the merge, with its views read beforehand: it was decoded with one more
+	// person (connected to nobody), who is then deleted. Its text is the text
+	// the oracle knows.
+	if i%3 == 1 && !big {
+		side, text := ld, L.text
+		if i%6 == 4 {
+			side, text = rd, R.text
+		}
+		extra := "0 @X999@ INDI\n1 NAME Deleted /Before-The-Merge/\n1 _TRC XDELETED\n1 BIRT\n2 DATE 1 Jan 1700\n"
+		with := text + extra
+		if strings.HasSuffix(text, "0 TRLR\n") {
+			with = strings.TrimSuffix(text, "0 TRLR\n") + extra + "0 TRLR\n"
+		}
+		if d, err := gedcom.NewDocumentFromString(with); err == nil {
+			for _, x := range d.Individuals() {
+				_, _, _ = x.Families(), x.Spouses(), x.Parents()
+			}
+			_, _ = d.Families(), d.NodeByPointer("X999")
+			if x, ok := d.NodeByPointer("X999").(*gedcom.IndividualNode); ok {
+				d.DeleteNode(x)
+			}
+			if want, _ := gedcom.NewDocumentFromString(text); want != nil && d.String() == want.String() {
+				c.Count("inputs-edited-through-the-api-before-the-merge", 1)
+				if side == ld {
+					ld = d
+				} else {
+					rd = d
+				}
+				payload["edited_input"] = "one input was decoded with an extra person @X999@, its views were read, and the person was deleted with Document.DeleteNode before the merge"
+			}
+		}
 	}
 	opts := gedcom.NewIndividualNodesCompareOptions()
 	conf := "default"
